@@ -16,13 +16,19 @@ func runC03(c *Check) {
 	c.Explanation = "Decides three necessary conditions of C03 for every list of input profiles: each identity key (function, location incl. every inlined line, mapping, sample) reads every attribute that the corresponding constructor copies into the merged object, apart from the documented exceptions (ids, normalised mapping addresses, symbol flags, summed values) (R1); keys assembled by indexed stores use disjoint slots — the index expressions a·i+b of one loop use one stride a with distinct offsets 0 <= b < a — so no attribute is overwritten by another (R2); the result never aliases an input: no pointer, slice or map read out of an input profile is stored into the merged profile or copied element-wise into it (R3), and no store in the Merge call tree goes through an input object (R4); the per-input id translation tables are re-created inside the loop over inputs before any entity of that input is mapped (R5). Also: per-input id tables are re-created in the loop (R5), every successful return follows the zero-sample scan (R6), the merged time ignores inputs without one (R7), the merged sample list only grows by append so no entity is left behind by a later removal (R8), Mapping.key uses the file name only when the build id is empty (R9). Not decided: value sums, order independence, idempotence of Compact, header arithmetic."
 	p := c.P
 	tree := map[string]*ssa.Function{}
-	for _, n := range []string{"Merge", "combineHeaders", "(*profileMerger).mapSample", "(*profileMerger).sampleKey", "(*profileMerger).mapLocation", "(*profileMerger).mapMapping", "(*profileMerger).mapLine", "(*profileMerger).mapFunction", "(*Location).key", "(*Mapping).key", "(*Function).key"} {
+	for _, n := range []string{"Merge", "combineHeaders", "(*profileMerger).mapSample", "(*profileMerger).sampleKey", "(*profileMerger).mapLocation", "(*profileMerger).mapMapping", "(*profileMerger).mapFunction", "(*Location).key", "(*Mapping).key", "(*Function).key"} {
 		if f := c.anchorFn("C03-R1", "profile", n); f != nil {
 			tree[n] = f
 		}
 	}
-	if len(tree) < 11 {
+	if len(tree) < 10 {
 		return
+	}
+	// the per-line copy may be a helper of its own or part of mapLocation
+	if f := p.Func("profile", "(*profileMerger).mapLine"); f != nil {
+		tree["(*profileMerger).mapLine"] = f
+	} else {
+		tree["(*profileMerger).mapLine"] = tree["(*profileMerger).mapLocation"]
 	}
 
 	// ---- R1 key completeness
@@ -163,14 +169,27 @@ func runC03(c *Check) {
 	// ---- R6 zero-sample scan before every successful return of Merge
 	{
 		mg := tree["Merge"]
-		var scan *ssa.Call
-		for _, b := range mg.Blocks {
-			for _, ins := range b.Instrs {
-				if call, ok := ins.(*ssa.Call); ok && call.Call.StaticCallee() != nil && call.Call.StaticCallee().Name() == "isZeroSample" && loopDepth(b) > 0 {
-					// the scan over the merged profile's samples: its argument is an element of p.Sample
-					if src := sourceDerived(call.Call.Args[0], isSourceParam, map[ssa.Value]bool{}); src == "" {
-						scan = call
+		var scan ssa.Instruction
+		viaHelper := false
+		for _, es := range effectiveSites(mg, func(ins ssa.Instruction) bool {
+			call, ok := ins.(*ssa.Call)
+			return ok && calleeNamed(ins, "isZeroSample") && loopDepth(call.Block()) > 0
+		}, 2) {
+			if es.via == nil {
+				// the scan over the merged profile's samples: its argument is an element of p.Sample
+				if src := sourceDerived(es.actual.(*ssa.Call).Call.Args[0], isSourceParam, map[ssa.Value]bool{}); src == "" {
+					scan = es.at
+				}
+			} else if call, ok := es.at.(*ssa.Call); ok {
+				// a helper that scans the profile it is given: it must be given the merged profile
+				fromInput := false
+				for _, a := range call.Call.Args {
+					if sourceDerived(a, isSourceParam, map[ssa.Value]bool{}) != "" {
+						fromInput = true
 					}
+				}
+				if !fromInput {
+					scan, viaHelper = es.at, true
 				}
 			}
 		}
@@ -193,8 +212,12 @@ func runC03(c *Check) {
 					}
 				}
 				n++
-				// the header of the scan loop dominates the return (the loop ran to completion)
+				// the header of the scan loop dominates the return (the loop ran to completion);
+				// when the scan lives in a helper, the call of the helper does
 				var hdr *ssa.BasicBlock
+				if viaHelper {
+					hdr = scan.Block()
+				}
 				for d := scan.Block(); d != nil && hdr == nil; d = d.Idom() {
 					for _, pred := range d.Preds {
 						if d.Dominates(pred) && (pred == scan.Block() || blockReachesPlain(scan.Block(), pred)) {
@@ -293,19 +316,39 @@ func runC03(c *Check) {
 	mg := tree["Merge"]
 	var mapCalls []ssa.Instruction
 	resets := map[string]ssa.Instruction{}
+	fresh := map[string]bool{}
 	for _, b := range mg.Blocks {
 		for _, ins := range b.Instrs {
-			switch x := ins.(type) {
+			if call, ok := ins.(*ssa.Call); ok {
+				if sc := call.Call.StaticCallee(); sc != nil && (sc.Name() == "mapSample" || sc.Name() == "mapMapping") {
+					mapCalls = append(mapCalls, call)
+				}
+			}
+		}
+	}
+	for _, F := range []string{"locationsByID", "functionsByID", "mappingsByID"} {
+		F := F
+		for _, es := range effectiveSites(mg, func(ins ssa.Instruction) bool {
+			st, ok := ins.(*ssa.Store)
+			if !ok {
+				return false
+			}
+			fa, ok := st.Addr.(*ssa.FieldAddr)
+			if !ok {
+				return false
+			}
+			T, G := fieldOf(fa.X.Type(), fa.Field)
+			return T == "profile.profileMerger" && G == F
+		}, 2) {
+			if loopDepth(es.at.Block()) == 0 {
+				continue
+			}
+			resets[F] = es.at
+			switch v := es.actual.(*ssa.Store).Val.(type) {
+			case *ssa.MakeMap:
+				fresh[F] = true
 			case *ssa.Call:
-				if sc := x.Call.StaticCallee(); sc != nil && (sc.Name() == "mapSample" || sc.Name() == "mapMapping") {
-					mapCalls = append(mapCalls, x)
-				}
-			case *ssa.Store:
-				if fa, ok := x.Addr.(*ssa.FieldAddr); ok {
-					if T, F := fieldOf(fa.X.Type(), fa.Field); T == "profile.profileMerger" && strings.HasSuffix(F, "ByID") && loopDepth(x.Block()) > 0 {
-						resets[F] = x
-					}
-				}
+				fresh[F] = v.Call.StaticCallee() != nil && strings.HasPrefix(v.Call.StaticCallee().Name(), "make")
 			}
 		}
 	}
@@ -323,17 +366,10 @@ func runC03(c *Check) {
 			}
 		}
 		// the stored value is a fresh table
-		fresh := false
-		switch v := r.(*ssa.Store).Val.(type) {
-		case *ssa.MakeMap:
-			fresh = true
-		case *ssa.Call:
-			fresh = v.Call.StaticCallee() != nil && strings.HasPrefix(v.Call.StaticCallee().Name(), "make")
-		}
-		if dom && fresh {
+		if dom && fresh[F] {
 			c.ok("C03-R5", key, p.relFile(r.Pos()), "pm."+F+" is re-created for every input", "a fresh table is stored inside the loop and dominates every mapSample/mapMapping call")
 		} else {
-			c.bad("C03-R5", key, p.relFile(r.Pos()), fmt.Sprintf("pm.%s is not reset with a fresh table before the entities of each input are mapped (dominates: %v, fresh: %v)", F, dom, fresh))
+			c.bad("C03-R5", key, p.relFile(r.Pos()), fmt.Sprintf("pm.%s is not reset with a fresh table before the entities of each input are mapped (dominates: %v, fresh: %v)", F, dom, fresh[F]))
 		}
 	}
 
@@ -398,6 +434,47 @@ func runC03(c *Check) {
 		reach := reachUnder(mk, func(cond ssa.Value) int { return -strFieldEmptyCond(cond, "BuildID") })
 		fileStore, idStore := 0, 0
 		bad := ""
+		isFile := func(v ssa.Value) bool { return fieldLoadOf(v, "profile.Mapping", "File") }
+		isID := func(v ssa.Value) bool { return fieldLoadOf(v, "profile.Mapping", "BuildID") }
+		// classify one value that ends up in the key: where it is taken from and whether that
+		// happens only when the build id is empty
+		var classify func(v ssa.Value, blk *ssa.BasicBlock, at token.Pos, seen map[ssa.Value]bool)
+		classify = func(v ssa.Value, blk *ssa.BasicBlock, at token.Pos, seen map[ssa.Value]bool) {
+			if seen[v] {
+				return
+			}
+			seen[v] = true
+			if ph, ok := v.(*ssa.Phi); ok {
+				for i, e := range ph.Edges {
+					pred := ph.Block().Preds[i]
+					if isFile(e) || mustDepend(e, isFile) {
+						fileStore++
+						// the edge may be taken only when BuildID == ""
+						if !edgeDetermines(pred, ph.Block(), isID) {
+							bad = p.relFile(at)
+						}
+						continue
+					}
+					if isID(e) || mustDepend(e, isID) {
+						idStore++
+						continue
+					}
+					classify(e, pred, at, seen)
+				}
+				return
+			}
+			switch {
+			case mustDepend(v, isFile):
+				fileStore++
+				if reach[blk] {
+					bad = p.relFile(at)
+				}
+			case mustDepend(v, isID):
+				if reach[blk] {
+					idStore++
+				}
+			}
+		}
 		for _, b := range mk.Blocks {
 			for _, ins := range b.Instrs {
 				st, ok := ins.(*ssa.Store)
@@ -411,17 +488,10 @@ func runC03(c *Check) {
 				if T, _ := fieldOf(fa.X.Type(), fa.Field); T != "profile.mappingKey" {
 					continue
 				}
-				switch {
-				case mustDepend(st.Val, func(v ssa.Value) bool { return fieldLoadOf(v, "profile.Mapping", "File") }):
-					fileStore++
-					if reach[b] {
-						bad = p.relFile(st.Pos())
-					}
-				case mustDepend(st.Val, func(v ssa.Value) bool { return fieldLoadOf(v, "profile.Mapping", "BuildID") }):
-					if reach[b] {
-						idStore++
-					}
+				if bt, ok := st.Val.Type().Underlying().(*types.Basic); !ok || bt.Kind() != types.String {
+					continue
 				}
+				classify(st.Val, b, st.Pos(), map[ssa.Value]bool{})
 			}
 		}
 		switch {
